@@ -48,6 +48,8 @@ pub enum Op {
     /// string constructors get raw bytes: they may be invalid UTF-8
     NewStr(SCtor, Vec<u8>),
     Clone(u16),
+    /// `pool[a].clone_from(&pool[b])` (same kind only): a now aliases b's buffer, a's old buffer lost one owner
+    CloneFrom(u16, u16),
     Drop(u16),
     DropOnThread(u16),
     Compare(u16, u16),
@@ -183,6 +185,7 @@ fn op_strategy() -> impl Strategy<Value = Op> {
         6 => (bctor(), bytes_strategy()).prop_map(|(c, b)| Op::NewBytes(c, b)),
         6 => (sctor(), bytes_strategy()).prop_map(|(c, b)| Op::NewStr(c, b)),
         6 => any::<u16>().prop_map(Op::Clone),
+        3 => (any::<u16>(), any::<u16>()).prop_map(|(a, b)| Op::CloneFrom(a, b)),
         6 => any::<u16>().prop_map(Op::Drop),
         3 => any::<u16>().prop_map(Op::DropOnThread),
         3 => (any::<u16>(), any::<u16>()).prop_map(|(a, b)| Op::Compare(a, b)),
@@ -364,6 +367,33 @@ fn run_ops(c: &Case, flags: &mut Flags) -> Result<(), (String, String)> {
                         }
                     };
                     pool.push(h);
+                }
+            }
+            Op::CloneFrom(a, b) => {
+                if let (Some(a), Some(b)) = (pick(&pool, *a), pick(&pool, *b)) {
+                    if a != b {
+                        // take b's handle out to borrow both
+                        let src = pool.swap_remove(b);
+                        let a = if a == pool.len() { b } else { a };
+                        match (&mut pool[a], &src) {
+                            (H::B(x, mx), H::B(y, my)) => {
+                                x.clone_from(y);
+                                *mx = my.clone();
+                                if x.as_ptr() != y.as_ptr() {
+                                    fail!("clone-not-aliasing", "step {k}: after a.clone_from(&b) a does not alias b's buffer");
+                                }
+                            }
+                            (H::S(x, mx), H::S(y, my)) => {
+                                x.clone_from(y);
+                                *mx = my.clone();
+                                if x.as_ptr() != y.as_ptr() {
+                                    fail!("clone-not-aliasing", "step {k}: after a.clone_from(&b) the string a does not alias b's buffer");
+                                }
+                            }
+                            _ => {}
+                        }
+                        pool.push(src);
+                    }
                 }
             }
             Op::Drop(i) => {
@@ -563,7 +593,7 @@ impl Prop for C16 {
     fn rule(&self) -> String {
         "cases = op sequences (<= 40 ops) over a pool of SharedBytes/SharedString handles: every constructor path \
          (slice, Vec with/without spare capacity, empty Vec with capacity 0, Box, both Cow arms, iterator, From<&SharedBytes>, \
-         the four serde visitor methods, JSON), clone, drop, drop on another thread, compare/order/hash, into_bytes, to_string, \
+         the four serde visitor methods, JSON), clone, clone_from, drop, drop on another thread, compare/order/hash, into_bytes, to_string, \
          cross-thread clone/drop storms, racing final drops (two threads drop the last two handles of 100..1500 buffers at the same instant), iterators with wrong size hints; byte inputs include empty, long, valid multi-byte, truncated and invalid UTF-8. \
          Every case ends with two Vec-backed buffers built while the allocator serves small blocks from a packed arena of 32-byte slots (no in-band headers, last freed slot first), so that the header from_vec allocates lies directly in front of the Vec's data, and with a thread whose thread-local destructor drops the last clones of a buffer and a string. \
          Oracle: Vec<u8>/String model per handle + checking allocator (layout on free, double free, poison, live blocks). \
@@ -780,7 +810,7 @@ pub fn decode(u: &mut arbitrary::Unstructured) -> arbitrary::Result<Value> {
                 };
                 Op::NewStr(c, payload(u)?)
             }
-            4 => Op::Clone(u.arbitrary()?),
+            4 => if u.arbitrary::<bool>()? { Op::Clone(u.arbitrary()?) } else { Op::CloneFrom(u.arbitrary()?, u.arbitrary()?) },
             5 => Op::Drop(u.arbitrary()?),
             6 => Op::Compare(u.arbitrary()?, u.arbitrary()?),
             7 => Op::CompareSlice(u.arbitrary()?, payload(u)?),
